@@ -503,6 +503,11 @@ impl Sim {
 
     /// Like `start`, with a user-provided outbound request layer that tags requests with `h-user`.
     pub fn start_with_user_layer(&self, spec: &NodeSpec) -> anyhow::Result<Network> {
+        self.start_with_user_layer_ordered(spec, false)
+    }
+
+    /// `layer_first`: the builder is given the outbound layer before the configuration.
+    pub fn start_with_user_layer_ordered(&self, spec: &NodeSpec, layer_first: bool) -> anyhow::Result<Network> {
         let node = self.fabric.nodes();
         let svc = HarnessSvc::new(node, self.svc.clone());
         let layer = tower::util::MapRequestLayer::new(|mut r: Request<Bytes>| {
@@ -514,11 +519,8 @@ impl Sim {
             }
             r
         });
-        let mut b = Network::bind("127.0.0.1:0")
-            .private_key(key_bytes(spec.key))
-            .server_name(spec.name.clone())
-            .config(spec.config.clone())
-            .outbound_request_layer(layer);
+        let b = Network::bind("127.0.0.1:0").private_key(key_bytes(spec.key)).server_name(spec.name.clone());
+        let mut b = if layer_first { b.outbound_request_layer(layer).config(spec.config.clone()) } else { b.config(spec.config.clone()).outbound_request_layer(layer) };
         if let Some(a) = &spec.alt {
             b = b.alternate_server_name(a.clone());
         }
